@@ -60,12 +60,12 @@ func (c *simChain) CID() int {
 
 type regulator struct{}
 
-func (regulator) MaxTxCount() int                                       { return 1000 }
-func (regulator) OnPropose(now time.Time)                               {}
-func (regulator) CommitTimeout() time.Duration                          { return time.Second }
-func (regulator) MinCommitTimeout() time.Duration                       { return time.Second }
-func (regulator) OnTxExecution(count int, ed, fd time.Duration)         {}
-func (regulator) SetBlockInterval(i time.Duration, d time.Duration)     {}
+func (regulator) MaxTxCount() int                                   { return 1000 }
+func (regulator) OnPropose(now time.Time)                           {}
+func (regulator) CommitTimeout() time.Duration                      { return time.Second }
+func (regulator) MinCommitTimeout() time.Duration                   { return time.Second }
+func (regulator) OnTxExecution(count int, ed, fd time.Duration)     {}
+func (regulator) SetBlockInterval(i time.Duration, d time.Duration) {}
 
 func quietLogger() log.Logger {
 	l := log.New()
